@@ -48,6 +48,15 @@ struct Cm<T: Num> {
 }
 
 fn chk<T: Num>(out: &mut Shards, id: usize, c: &Cm<T>, items: &[u64], d: u8, w: u32) {
+    // a panic of a query is an event of the trace, not a failure of the recorder
+    let r = catch(std::panic::AssertUnwindSafe(|| chk_inner(id, c, items, d, w)));
+    match r {
+        Ok(e) => out.ev(e),
+        Err(e) => out.ev(json!({"op":"Panic","in":"query","key":e.split(": ").next().unwrap_or(""),"msg":e})),
+    }
+}
+
+fn chk_inner<T: Num>(id: usize, c: &Cm<T>, items: &[u64], d: u8, w: u32) -> Value {
     let bytes = c.sk.serialize();
     let (tot, mut table) = decode(&bytes);
     if table.is_empty() {
@@ -62,10 +71,20 @@ fn chk<T: Num>(out: &mut Shards, id: usize, c: &Cm<T>, items: &[u64], d: u8, w: 
         e["img"] = json!(bytes);
         e["sh"] = json!(refhash::seed_hash(c.sk.seed()).to_le_bytes().to_vec());
     }
-    out.ev(e);
+    e
 }
 
 fn scenario<T: Num>(out: &mut Shards, rng: &mut Rng, tname: &str, d: u8, w: u32, seed: u64, n_items: usize, n_ops: usize,
+    scale: &dyn Fn(&mut CountMinSketch<T>, u8) -> Option<Value>) {
+    // a panic anywhere in the library (queries included) is an event of the trace
+    let r = catch(std::panic::AssertUnwindSafe(|| scenario_inner::<T>(&mut *out, &mut *rng, tname, d, w, seed, n_items, n_ops, scale)));
+    if let Err(e) = r {
+        out.ev(json!({"op":"Panic","in":"scenario","key":e.split(": ").next().unwrap_or(""),"msg":e}));
+    }
+}
+
+#[allow(clippy::too_many_arguments)]
+fn scenario_inner<T: Num>(out: &mut Shards, rng: &mut Rng, tname: &str, d: u8, w: u32, seed: u64, n_items: usize, n_ops: usize,
     scale: &dyn Fn(&mut CountMinSketch<T>, u8) -> Option<Value>) {
     out.next_run(&format!("cm-{tname}"));
     let seeds = row_seeds(seed, d);
@@ -175,6 +194,147 @@ fn no_scale<T: Num>() -> impl Fn(&mut CountMinSketch<T>, u8) -> Option<Value> {
     |_, _| None
 }
 
+/// 64-bit quantity as four 16-bit limbs, least significant first (Wide.tla)
+fn limbs(x: u64) -> Value {
+    json!([x & 0xffff, (x >> 16) & 0xffff, (x >> 32) & 0xffff, (x >> 48) & 0xffff])
+}
+
+pub trait WideNum: Num {
+    fn raw(self) -> u64;
+    fn from_raw(x: u64) -> Self;
+    fn top() -> u128;
+    fn halve(sk: &mut CountMinSketch<Self>) -> bool;
+}
+impl WideNum for u64 {
+    fn raw(self) -> u64 { self }
+    fn from_raw(x: u64) -> Self { x }
+    fn top() -> u128 { u64::MAX as u128 }
+    fn halve(sk: &mut CountMinSketch<Self>) -> bool { sk.halve(); true }
+}
+impl WideNum for i64 {
+    fn raw(self) -> u64 { self as u64 }
+    fn from_raw(x: u64) -> Self { x as i64 }
+    fn top() -> u128 { i64::MAX as u128 }
+    fn halve(_sk: &mut CountMinSketch<Self>) -> bool { false }
+}
+
+fn wide_chk<T: WideNum>(out: &mut Shards, id: usize, sk: &CountMinSketch<T>, seeds: &[u64], items: &[u64], w: u32) {
+    let bytes = sk.serialize();
+    let rd = |i: usize| u64::from_le_bytes(bytes[i..i + 8].try_into().unwrap());
+    let table: Vec<Value> = if bytes.len() <= 16 { vec![] } else { (0..(bytes.len() - 24) / 8).map(|i| limbs(rd(24 + 8 * i))).collect() };
+    if table.is_empty() {
+        return;
+    }
+    let q: Vec<Value> = items.iter().map(|&it| {
+        json!({"x": it, "b": buckets(it, seeds, w), "est": limbs(sk.estimate(it).raw()),
+               "lb": limbs(sk.lower_bound(it).raw()), "ub": limbs(sk.upper_bound(it).raw())})
+    }).collect();
+    let mut e = json!({"op":"WChk","id":id,"table":table,"tot":limbs(sk.total_weight().raw()),"q":q});
+    if bytes.len() <= 1200 {
+        e["img"] = json!(bytes);
+        e["sh"] = json!(refhash::seed_hash(sk.seed()).to_le_bytes().to_vec());
+    }
+    out.ev(e);
+}
+
+/// u64 / i64 counters far above 2^32 (weights around 2^53 .. 2^62): exact 64-bit arithmetic of
+/// update, merge and halve
+fn wide_scenario<T: WideNum>(out: &mut Shards, rng: &mut Rng, tname: &str, d: u8, w: u32, n_ops: usize) {
+    let r = catch(std::panic::AssertUnwindSafe(|| wide_scenario_inner::<T>(&mut *out, &mut *rng, tname, d, w, n_ops)));
+    if let Err(e) = r {
+        out.ev(json!({"op":"Panic","in":"scenario","key":e.split(": ").next().unwrap_or(""),"msg":e}));
+    }
+}
+
+fn wide_scenario_inner<T: WideNum>(out: &mut Shards, rng: &mut Rng, tname: &str, d: u8, w: u32, n_ops: usize) {
+    out.next_run(&format!("cm-wide-{tname}"));
+    let seed = 9001u64;
+    let seeds = row_seeds(seed, d);
+    let mut sks = vec![CountMinSketch::<T>::with_seed(d, w, seed), CountMinSketch::<T>::with_seed(d, w, seed)];
+    out.ev(json!({"op":"WNew","id":0,"d":d,"w":w}));
+    out.ev(json!({"op":"WNew","id":1,"d":d,"w":w}));
+    let items: Vec<u64> = (0..6).map(|_| rng.below(1 << 20)).collect();
+    let mut used = [0u128; 2];
+    for i in 0..n_ops {
+        let which = if rng.chance(1, 4) { 1 } else { 0 };
+        let r = rng.below(100);
+        if r < 70 {
+            let it = *rng.pick(&items);
+            let wt: u64 = match rng.below(8) {
+                0 => 1,
+                1 => 3,
+                2 => (1 << 53) + 1,
+                3 => (1 << 54) + 2 + rng.below(4),
+                4 => (1 << 60) + rng.below(1 << 20),
+                5 => (1 << 32) + rng.below(1 << 16),
+                6 => (1u64 << 62) - 1 - rng.below(1000),
+                _ => rng.below(1 << 40),
+            };
+            // "non-negative weights whose total fits the counter type" (both operands together)
+            if used[0] + used[1] + wt as u128 > T::top() {
+                continue;
+            }
+            used[which] += wt as u128;
+            let res = catch(std::panic::AssertUnwindSafe(|| sks[which].update_with_weight(it, T::from_raw(wt))));
+            if let Err(e) = res {
+                out.ev(json!({"op":"Panic","in":"update_with_weight","key":e.split(": ").next().unwrap_or(""),"msg":e}));
+                return;
+            }
+            out.ev(json!({"op":"WUpd","id":which,"x":it,"b":buckets(it, &seeds, w),"wt":limbs(wt),
+                "est":limbs(sks[which].estimate(it).raw()),"tot":limbs(sks[which].total_weight().raw())}));
+        } else if r < 82 {
+            if used[0] + 2 * used[1] > T::top() {
+                continue;
+            }
+            let other = sks[1].clone();
+            let res = catch(std::panic::AssertUnwindSafe(|| sks[0].merge(&other)));
+            if let Err(e) = res {
+                out.ev(json!({"op":"Panic","in":"merge","key":e.split(": ").next().unwrap_or(""),"msg":e}));
+                return;
+            }
+            used[0] += used[1];
+            out.ev(json!({"op":"WMerge","id":0,"src":1,"tot":limbs(sks[0].total_weight().raw())}));
+        } else if r < 94 {
+            if T::halve(&mut sks[which]) {
+                used[which] = sks[which].total_weight().raw() as u128;
+                out.ev(json!({"op":"WHalve","id":which,"tot":limbs(sks[which].total_weight().raw())}));
+            }
+        }
+        if (i + 1) % 10 == 0 || i + 1 == n_ops {
+            wide_chk(out, 0, &sks[0], &seeds, &items, w);
+            wide_chk(out, 1, &sks[1], &seeds, &items, w);
+        }
+    }
+}
+
+/// merge() offered sketches of other shapes / seeds, including ones with the same number of cells
+fn merge_refusals(out: &mut Shards) {
+    out.next_run("cm-merge-refusal");
+    let cases: [((u8, u32, u64), (u8, u32, u64)); 8] = [
+        ((4, 16, 9001), (8, 8, 9001)), ((2, 12, 9001), (3, 8, 9001)), ((3, 8, 9001), (4, 6, 9001)),
+        ((3, 64, 9001), (2, 64, 9001)), ((3, 64, 9001), (3, 63, 9001)), ((3, 8, 9001), (3, 8, 42)),
+        ((3, 8, 42), (3, 8, 42)), ((1, 3, 9001), (1, 3, 9001)),
+    ];
+    for (a, b) in cases {
+        let mut x = CountMinSketch::<u64>::with_seed(a.0, a.1, a.2);
+        let mut y = CountMinSketch::<u64>::with_seed(b.0, b.1, b.2);
+        x.update_with_weight(1u64, 5);
+        y.update_with_weight(2u64, 7);
+        let before = x.serialize();
+        let r = catch(std::panic::AssertUnwindSafe(|| { x.merge(&y); x.total_weight() }));
+        let accepted = match r {
+            Ok(t) => t == 12,
+            Err(_) => false,
+        };
+        // a refused merge leaves the receiver as it was
+        let untouched = accepted || x.serialize() == before;
+        out.ev(json!({"op":"CMergeTry","a":[a.0, a.1, a.2 % 100000],"b":[b.0, b.1, b.2 % 100000],"accepted":accepted}));
+        if !untouched {
+            out.ev(json!({"op":"Panic","in":"merge-refused-but-modified","key":"state","msg":"receiver changed by a refused merge"}));
+        }
+    }
+}
+
 pub fn record(args: &Args) {
     let seed = args.u64("seed", 1);
     let mut rng = Rng::new(seed ^ 0xC0C0);
@@ -210,6 +370,15 @@ pub fn record(args: &Args) {
         scenario::<u16>(&mut out, &mut rng, "u16", 3, 127, 9001, 100, 300, &unsigned_scale::<u16>());
         scenario::<i16>(&mut out, &mut rng, "i16", 1, 3, 9001, 6, 200, &no_scale::<i16>());
     }
+    for rep in 0..reps {
+        for &(d, w) in &[(1u8, 3u32), (2, 5), (3, 8)] {
+            wide_scenario::<u64>(&mut out, &mut rng, "u64", d, w, if thorough { 160 } else { 80 });
+            if rep == 0 {
+                wide_scenario::<i64>(&mut out, &mut rng, "i64", d, w, 60);
+            }
+        }
+    }
+    merge_refusals(&mut out);
     let (runs, events) = out.finish();
     println!("{}", json!({"runs":runs,"events":events}));
 }
